@@ -23,14 +23,16 @@ def run(chk, tier, seed):
             r = sigcase.realize(c, rng)
             levels = [r["level"]] if c["level"] != "huge" else HUGE
             for lv in levels:
-                lines.append("V INTERNAL %s %s %s" % (r["sig"].hex(), r["doc"].hex() if r["doc"] else "-", lv if lv is not None else "-"))
-                meta.append(d)
+                # Signature.tla EntryPoints: the verdict does not depend on how hash and level reach the verifier
+                for via in ("", "@args", "@wpctx", "@parse"):
+                    lines.append("V INTERNAL%s %s %s %s" % (via, r["sig"].hex(), r["doc"].hex() if r["doc"] else "-", lv if lv is not None else "-"))
+                    meta.append(d)
     # every single-bit flip of the digest of one signature (exhaustive), plus other lengths
     base = [d for d in cases if d["c"]["doc"] == "equal" and d["c"]["level"] == "none" and not d["c"]["viol"]][0]
     r = sigcase.realize(base["c"], rng)
     flip_allowed = [dict(rc="OK", res="FAIL", code="GEN-01")]
     for bit in range(8 * (len(r["doc"]) - 1)):
-        lines.append("V INTERNAL %s %s -" % (r["sig"].hex(), sigcase.flip(r["doc"], bit).hex()))
+        lines.append("V INTERNAL%s %s %s -" % (("", "@args", "@wpctx", "@parse")[bit % 4], r["sig"].hex(), sigcase.flip(r["doc"], bit).hex()))
         meta.append(dict(c=dict(base["c"], doc="digest"), allowed=flip_allowed))
     for alg in (0, 4, 5):
         lines.append("V INTERNAL %s %s -" % (r["sig"].hex(), ksi.imprint(alg, b"x").hex()))
@@ -52,6 +54,12 @@ def run(chk, tier, seed):
         if v["rc"] == "ERR":
             if dict(rc="ERR") not in allowed:
                 chk.violation("verdict:ERR:" + c01.describe(d["c"]), "error status where Signature.tla allows %s" % allowed, dict(line=line, got=o))
+            continue
+        if v.get("res") == "9":          # an entry point that only tells OK from not-OK
+            if d["c"].get("doc") == "digest":
+                continue
+            if not any(a.get("res") in ("FAIL", "NA") or a.get("rc") == "ERR" for a in allowed):
+                chk.violation("verdict:rejected-valid:%s:%s" % (line.split()[1], c01.describe(d["c"])), "%s reports a verification failure, Signature.tla allows only %s" % (line.split()[1], allowed), dict(line=line, got=o))
             continue
         if v not in allowed:
             kind = "wrong-document-or-level-accepted" if v["res"] == "OK" else "wrong-code"
